@@ -126,6 +126,10 @@ def cases(tier, rng, schema, feats):
                 for i in range(len(node.pairs)):
                     add(cmd, mutate.dup_pair(tree, path, i), "dup")
                     add(cmd, mutate.dup_pair(tree, path, i, at=i), "dup")
+                    # a duplicate whose first / second occurrence is null (text-keyed maps accept null for optional members)
+                    if isinstance(node.pairs[i][0], (str, cbor.T)):
+                        add(cmd, mutate.dup_pair_null(tree, path, i, True), "dup")
+                        add(cmd, mutate.dup_pair_null(tree, path, i, False), "dup")
                 add(cmd, mutate.replace(tree, path, cbor.Indef(node)), "indef")
             if isinstance(node, (list, bytes, str, cbor.T)) and not isinstance(node, bool):
                 add(cmd, mutate.replace(tree, path, cbor.Indef(node)), "indef")
